@@ -389,10 +389,10 @@ func ruleObjStmCrosscheck(c *eng.Ctx) {
 		}
 		return false
 	}
-	c.Check(fromField(call.Common().Args[1], "Generation") && !fromField(call.Common().Args[1], "Offset"), R, name+"#index", call.Pos(), "index within the stream comes from entry.Generation", "the index passed to GetObjectByIndex is not the entry's second field (Generation)")
+	c.Check(fromField(eng.ArgsWithRecv(call)[1], "Generation") && !fromField(eng.ArgsWithRecv(call)[1], "Offset"), R, name+"#index", call.Pos(), "index within the stream comes from entry.Generation", "the index passed to GetObjectByIndex is not the entry's second field (Generation)")
 	okStm := false
 	for _, gs := range eng.CallsNamed(fn, false, "reader.(*Reader).getObjectStream") {
-		if fromField(gs.Common().Args[1], "Offset") && !fromField(gs.Common().Args[1], "Generation") {
+		if fromField(eng.ArgsWithRecv(gs)[1], "Offset") && !fromField(eng.ArgsWithRecv(gs)[1], "Generation") {
 			okStm = true
 		}
 	}
